@@ -2590,6 +2590,21 @@ class LazyStackedTensorDict(TensorDictBase):
             **kwargs,
         )
 
+    def softmax(self, dim: int, dtype: torch.dtype | None = None):
+        if not isinstance(dim, int):
+            raise ValueError(f"Expected dim of type int, got {type(dim)}.")
+        dim = _maybe_correct_neg_dim(dim, self.batch_size)
+        if dim == self.stack_dim:
+            # the entries of the members do not have the stack dim: the softmax runs over the stacked entries
+            return self.to_tensordict().softmax(dim, dtype=dtype)
+        # a batch dim located after the stack dim sits one position earlier in the members
+        member_dim = dim if dim < self.stack_dim else dim - 1
+        return type(self)(
+            *[td.softmax(member_dim, dtype=dtype) for td in self.tensordicts],
+            stack_dim=self.stack_dim,
+            stack_dim_name=self._td_dim_name,
+        )
+
     def all(self, dim: int = None) -> bool | TensorDictBase:
         if dim is not None and (dim >= self.batch_dims or dim < -self.batch_dims):
             raise RuntimeError(
